@@ -98,16 +98,30 @@ def _create_wo(self, target, tag=None, info=None):
 Maintainer.create_work_order = _create_wo
 
 
+class Pallet(Batch):
+    """a user subclass of Batch (the documented way to attach data to a batch): everything the library
+    does for a Batch it must do for a Pallet (isinstance, not an exact type test)"""
+
+
+class Piece(Part):
+    """a user subclass of Part, for the same reason"""
+
+
 class GenX(PartGenerator):
-    def __init__(self, prefix, value, quality, batchof):
+    def __init__(self, prefix, value, quality, batchof, phase=0):
         super().__init__(prefix, value, quality)
         self.batchof = batchof
+        self.phase = phase
 
     def generate_part_helper(self, part_name, part_counter):
+        # every other generated object is an instance of a user subclass (invisible in the observation
+        # stream: a correct library treats it like the base class)
+        sub = (part_counter + self.phase) % 2 == 1
         if self.batchof == 0:
-            return Part(part_name, self.value, self.quality)
+            return (Piece if sub else Part)(part_name, self.value, self.quality)
         n = max(self.batchof, 0)
-        return Batch(part_name, [Part(f'{part_name}_{i}', self.value, self.quality) for i in range(n)])
+        return (Pallet if sub else Batch)(
+            part_name, [(Piece if (sub + i) % 2 else Part)(f'{part_name}_{i}', self.value, self.quality) for i in range(n)])
 
 
 class TargetMixin:
@@ -488,7 +502,7 @@ class FullRunner(Runner):
             args = {}
             if kv.get('budget', 'def') != 'def':
                 args['starting_parts'] = INF if kv['budget'] == 'inf' else int(kv['budget'])
-            gen = GenX(f'P{i}', int(kv.get('pval', '0')), int(kv.get('pqual', '1')), int(kv.get('batchof', '0')))
+            gen = GenX(f'P{i}', int(kv.get('pval', '0')), int(kv.get('pqual', '1')), int(kv.get('batchof', '0')), phase=i)
             d = Source(name, gen, cyc, **args)
         elif kind == 'handler':
             d = PartHandler(name, ups, cyc, value)
